@@ -81,6 +81,17 @@ def _tool_binary():
         if rc != 0:
             return None, o
         os.replace(tmp, binp)
+        # keep the directory small: older translator binaries (and their self-test markers) are of no use
+        olds = sorted((os.path.getmtime(os.path.join(d, x)), x) for x in os.listdir(d)
+                      if x.startswith("effects-") and not x.startswith(os.path.basename(binp)) and ".tmp" not in x)
+        keep = {x.split(".")[0] for _, x in olds if "." not in x}
+        keep = set(sorted(keep, key=lambda b: os.path.getmtime(os.path.join(d, b)))[-2:])
+        for _, x in olds:
+            if x.split(".")[0] not in keep:
+                try:
+                    os.remove(os.path.join(d, x))
+                except OSError:
+                    pass
     return binp, ""
 
 
@@ -135,7 +146,7 @@ def selftest():
         vbad.append("vMergeCloneAuth and vMergeCopyAuth must have identical, passing rows: %s vs %s" % (ca, cb))
     if vbad:
         return False, "translator self-test FAILED (variant table of the fixture): " + "; ".join(vbad)
-    msg = "translator self-test: %d seeded methods of the fixture module extracted as expected; variant table of %d fixture types " \
+    msg = "translator self-test: %d fixture methods of the fixture module (seeded writes and clean ones) extracted as expected; variant table of %d fixture types " \
           "(%d fields) as expected" % (len(exp), len(vexp), sum(len(e["fields"]) for e in vexp.values()))
     with open(marker, "w") as f:
         f.write(msg)
@@ -218,8 +229,10 @@ def regenerate():
       the same as the installed one (the usual case: the change under test does not touch mechanism writes);
       when it differs, the table, its Examples and a copy of the evaluator are compiled privately under
       out/…/altcoq (logical prefix HVP); coq/Gen is never written.  For a different but clean table the
-      property theorems are those of the shared tree (C17_for_every_table is proved for EVERY table passing
-      `forallb row_ok`), instantiated by the privately checked `HVP.EffectsOk.effects_read_only`.
+      property theorems are those of the shared tree (C17_for_every_table is proved for every PAIR of tables passing
+      `forallb row_ok` / `forallb variant_row_ok`), instantiated by the privately compiled `HVP.EffectsOk.effects_read_only`
+      and `HVP.Variants.variants_ok` in `HVP/Props.v` (kernel-checked statement about the private tables).
+      The only file a VERIF_REPO run touches outside its own out directory is the lock file out/c17gen.lock.
 
     returns (ok, message, rows-json or None)"""
     if "regen" in _state:
@@ -561,6 +574,20 @@ def _variant_summary(vrows):
             "rows_failing_variant_row_ok": offending_variants(vrows)[:10]}
 
 
+def _anchors():
+    """the anchored files of properties.jsonl: factory, repository, every non-test source of the five mechanism packages,
+    metadata endpoint, values, endpoint (globs expanded against VERIF_REPO, for the source fingerprint)"""
+    import glob
+    out = ["internal/rules/mechanisms/mechanism_factory.go", "internal/rules/mechanisms/mechanism_repository.go",
+           "internal/rules/mechanisms/oauth2/metadata_endpoint.go", "internal/rules/mechanisms/values/values.go",
+           "internal/rules/endpoint/endpoint.go"]
+    for pkg in ("authenticators", "authorizers", "contextualizers", "finalizers", "errorhandlers"):
+        for f in sorted(glob.glob(os.path.join(vf.REPO, "internal/rules/mechanisms", pkg, "*.go"))):
+            if not f.endswith("_test.go"):
+                out.append(os.path.relpath(f, vf.REPO))
+    return out
+
+
 P = {
     "id": PID,
     "claimed": True,
@@ -597,17 +624,7 @@ P = {
             "on a shared real cache) while variants are created and the registered key-store reload listeners (OnChanged) are fired, under the race "
             "detector, child process per batch; observation = race reports / runtime crash (a crash that is neither a race nor a concurrent map access is "
             "reported only if it repeats) / changed hashes.",
-    "anchors": ["internal/rules/mechanisms/mechanism_factory.go", "internal/rules/mechanisms/mechanism_repository.go",
-                "internal/rules/mechanisms/oauth2/metadata_endpoint.go", "internal/rules/mechanisms/values/values.go",
-                "internal/rules/endpoint/endpoint.go",
-                "internal/rules/mechanisms/authenticators/jwt_authenticator.go",
-                "internal/rules/mechanisms/authenticators/oauth2_introspection_authenticator.go",
-                "internal/rules/mechanisms/authenticators/generic_authenticator.go",
-                "internal/rules/mechanisms/authorizers/remote_authorizer.go", "internal/rules/mechanisms/authorizers/cel_authorizer.go",
-                "internal/rules/mechanisms/contextualizers/generic_contextualizer.go",
-                "internal/rules/mechanisms/finalizers/jwt_finalizer.go", "internal/rules/mechanisms/finalizers/header_finalizer.go",
-                "internal/rules/mechanisms/finalizers/cookie_finalizer.go",
-                "internal/rules/mechanisms/finalizers/oauth2_client_credentials_finalizer.go"],
+    "anchors": _anchors(),
     "trusted": [
         "soundness of the go/ssa effect extraction (harness/tools/effects): flow-insensitive taint analysis over static callees, "
         "class-hierarchy-resolved interface calls and closures; taints: receiver-derived, package-level (module variables except sentinel "
